@@ -1011,6 +1011,9 @@ class FunctionalQuadraticPerturb(Functional):
         else:
             grad_lipschitz = (func.grad_lipschitz + self.linear_term.norm())
 
+        # The gradient of ``a * ||x||^2`` is ``2 * a * x``
+        grad_lipschitz = grad_lipschitz + 2 * abs(self.quadratic_coeff)
+
         constant = func.domain.field.element(constant)
         if constant.imag != 0:
             raise ValueError(
